@@ -76,10 +76,10 @@ CvActiveChord(ch, since, coord, rl) ==
    st |-> IF relFound /\ ch.first THEN "UR" ELSE "U", delay |-> since]
 
 \* `self.active_chords.push(ach)` + `assert!(overflow.is_ok())`
-CvActivate(cv, ch, since, relFound) ==
+CvActivate(cv, ch, since, rl) ==
   LET n == CvNextCoord(cv) IN
   IF Len(cv.ach) >= CvAchCap THEN CvPanic(n.cv, "assert:active chords has room")
-  ELSE [n.cv EXCEPT !.ach = Append(@, CvActiveChord(ch, since, n.c, relFound))]
+  ELSE [n.cv EXCEPT !.ach = Append(@, CvActiveChord(ch, since, n.c, rl))]
 
 \* src: chord.rs:268 drain_virtual_keys.  returns [cv, dq]
 RECURSIVE CvDrainVkRec(_, _, _, _)
@@ -140,7 +140,7 @@ CvMinT(chs) == IF chs = <<>> THEN CvU16
 \*  equals recomputing it from `possible` for the grown `acc` as long as the 16-entry candidate list did not overflow;
 \*  tables in the instances are far smaller, so the candidate list is recomputed here)
 RECURSIVE CvPressLoop(_, _, _, _, _, _, _)
-CvPressLoop(st, presses, possible, layer, since, relFound, cign) ==
+CvPressLoop(st, presses, possible, layer, since, rl, cign) ==
   IF presses = <<>> \/ st.brk THEN st
   ELSE
     LET acc == Append(st.acc, Head(presses))
@@ -153,17 +153,17 @@ CvPressLoop(st, presses, possible, layer, since, relFound, cign) ==
        THEN LET n == CvNextCoord(cv) IN        \* the coordinate is taken before the completeness test
             IF CvExact(acc, cands[1])
             THEN LET cv1 == IF Len(n.cv.ach) >= CvAchCap THEN CvPanic(n.cv, "assert:active chords has room")
-                            ELSE [n.cv EXCEPT !.ach = Append(@, CvActiveChord(cands[1], since, n.c, relFound))]
+                            ELSE [n.cv EXCEPT !.ach = Append(@, CvActiveChord(cands[1], since, n.c, rl))]
                  IN [cv |-> cv1, acc |-> acc, cands |-> cands, brk |-> TRUE]
             ELSE CvPressLoop([cv |-> [n.cv EXCEPT !.tuns = CvSatSub(minTo, since)], acc |-> acc, cands |-> cands,
-                              brk |-> FALSE], Tail(presses), possible, layer, since, relFound, cign)
+                              brk |-> FALSE], Tail(presses), possible, layer, since, rl, cign)
        ELSE IF count = 0
        THEN LET back == st.acc            \* accumulated_presses.pop()
                 f == CvFindExact(possible, back, layer)
-                cv1 == IF f # <<>> THEN CvActivate(cv, f[1], since, relFound) ELSE [cv EXCEPT !.ign = cign]
+                cv1 == IF f # <<>> THEN CvActivate(cv, f[1], since, rl) ELSE [cv EXCEPT !.ign = cign]
             IN [cv |-> cv1, acc |-> back, cands |-> <<>>, brk |-> TRUE]
        ELSE CvPressLoop([cv |-> [cv EXCEPT !.tuns = CvSatSub(minTo, since)], acc |-> acc, cands |-> cands,
-                         brk |-> FALSE], Tail(presses), possible, layer, since, relFound, cign)
+                         brk |-> FALSE], Tail(presses), possible, layer, since, rl, cign)
 
 \* the retain closure of 513-526: `consumed` loses the key of every press it removes
 RECURSIVE CvRemoveConsumed(_, _)
